@@ -47,13 +47,43 @@ def d1(run):
 
 def d2(mod, run, w):
     fn = need_fn(mod, "varintDimensionPairEncode"); fi = w.fi(fn).prepare()
-    puts = [i for i in fn.calls() if i.get("callee") == "varintExternalPutFixedWidth"]
-    if len(puts) != 2: raise AnalysisBroken("varintDimensionPairEncode: expected 2 fixed-width puts, found %d" % len(puts))
-    (r1, o1), (r2, o2) = fi.ptr(puts[0].ops[0]), fi.ptr(puts[1].ops[0])
-    w1, w2 = fi.lin(puts[0].ops[2]), fi.lin(puts[1].ops[2])
-    ok = r1 == r2 == ("arg", 0) and o1 == Lin() and o2 == w1
-    run.check(ok, "D2-header-fields-adjacent", {"first": "dst+%r width %r" % (o1, w1), "second": "dst+%r width %r" % (o2, w2)},
-              Finding("D2-header-layout", fn.name, "header", "offsets", "row count written at dst+%r (width %r), column count at dst+%r: the column count must start exactly where the row count ends" % (o1, w1, o2), loc=loc(puts[1])))
+    allputs = [i for i in fn.calls() if i.get("callee") == "varintExternalPutFixedWidth"]
+    if not 2 <= len(allputs) <= 4: raise AnalysisBroken("varintDimensionPairEncode: expected 2 fixed-width puts (one per count), found %d" % len(allputs))
+    if fn.loops(): raise AnalysisBroken("varintDimensionPairEncode: unexpected loop")
+    # every way through the function: the counts are written back to back from dst; a count may only be left out where its width is 0
+    paths = []
+    def walk(b, puts, zeros, depth=0):
+        if depth > 40 or len(paths) > 64: raise AnalysisBroken("varintDimensionPairEncode: too many paths")
+        puts = puts + [i for i in b.insts if i.op == "call" and i.get("callee") == "varintExternalPutFixedWidth"]
+        t = b.term
+        if t.op == "ret": paths.append((puts, zeros)); return
+        if t.op == "br" and len(t.ops) == 3 and t.ops[0]["k"] == "inst":
+            ci = fn.imap[t.ops[0]["v"]]
+            z = None
+            if ci.op == "icmp" and ci["pred"] in ("eq", "ne") and ci.ops[1]["k"] == "int" and int(ci.ops[1]["v"]) == 0: z = (fi.lin(ci.ops[0]), ci["pred"])
+            for sx, taken in ((fn.bmap[t.ops[2]["v"]], True), (fn.bmap[t.ops[1]["v"]], False)):
+                zs = zeros
+                if z is not None and ((z[1] == "eq") == taken): zs = zeros + [z[0]]
+                walk(sx, puts, zs, depth + 1)
+            return
+        for sx in b.succs: walk(sx, puts, zeros, depth + 1)
+    walk(fn.entry, [], [])
+    if not paths: raise AnalysisBroken("varintDimensionPairEncode: no path to a return")
+    for puts, zeros in paths:
+        desc = []; ok = 1 <= len(puts) <= 2; end = Lin()
+        for n, pt in enumerate(puts):
+            r, o = fi.ptr(pt.ops[0]); wd = fi.lin(pt.ops[2])
+            desc.append("dst+%r width %r" % (o, wd))
+            # starts where the previous count ended; an offset that is a width known to be 0 on this path is that same place
+            at_end = r == ("arg", 0) and (o == end or any((o - end) == zl for zl in zeros))
+            ok = ok and at_end
+            end = end + wd
+        if len(puts) == 1: ok = ok and bool(zeros)          # a count is left out only under a test that its width is 0
+        run.check(ok, "D2-header-fields-adjacent", {"writes": desc, "widths_known_zero_on_path": [repr(z) for z in zeros]},
+                  Finding("D2-header-layout", fn.name, "header", "offsets", "on a path through varintDimensionPairEncode the counts are written at %s: the column count must start exactly where the row count ends (and a count may be skipped only where its width is 0)" % (
+                      ", ".join(desc) or "nowhere"), loc=loc(puts[-1]) if puts else "%s:%s" % (rel(fn.file), fn.line)))
+    puts = allputs
+    w1 = fi.lin(puts[0].ops[2]); w2 = fi.lin(puts[-1].ops[2])
     # the widths are those encoded in the returned dimension
     rets = fn.rets()
     rv = fi.lin(rets[0].ops[0]) if rets and rets[0].ops else None
@@ -73,7 +103,7 @@ def d2(mod, run, w):
             for o in ii.ops:
                 if o["k"] in ("inst", "arg"): st += list(fi.lin(o).atoms())
         return False
-    run.check(rv is not None and derived_from_ret(w1) and derived_from_ret(w2), "D2-widths-from-returned-dimension", {"returned": repr(rv)},
+    run.check(rv is not None and all(derived_from_ret(fi.lin(pt.ops[2])) for pt in puts), "D2-widths-from-returned-dimension", {"returned": repr(rv)},
               Finding("D2-widths-not-from-dimension", fn.name, "header", "widths", "the widths used to write the header are not computed from the dimension value that is returned", loc=loc(puts[0])))
 
 
